@@ -122,6 +122,12 @@ def contracts():
             assert(exists|n: &str| n@ == n_view && #[trigger] data_builder.ensures((n, url), Ok(body))); //@C04.body_built_from_stored_nonce_and_url,C08.retransmission_rebuilt_with_newest_nonce
             w.net.built = Some((n_view, url@, body@));
         }"""),
+          ("exits", None, 1, """
+        proof {
+            // an answer that is a recoverable problem document is never the reason to give up: either the latest answer was a success,
+            // or it was not a recoverable error (the only other ways out are the exhausted retry budget and failed steps, which `?` reports)
+            assert(w.net.last_success || !recoverable_body(w.net.last_body) || w.net.posts == old(w).net.posts); //@C08.a_recoverable_error_is_sent_again_not_given_up
+        }"""),
           ("before_stmt", "acme_err.is_recoverable", 1, """
                 proof {
                     assert(json_spec::<HttpApiError>(w.net.last_body) == Some(api_err));
@@ -190,6 +196,14 @@ def build():
     u.raw("endpoint", ratelimit.SPEC)
     u.stub("acmed/src/endpoint.rs", "RateLimit::block_until_allowed", "endpoint",
            fns={"block_until_allowed": rc["block_until_allowed"]})
+    # methods of RateLimit that did not exist when the contracts were written: seen through the representation-invariant contract that
+    # unit ratelimit verifies them against
+    for name_, recv_ in u.new_methods("acmed/src/endpoint.rs", "RateLimit"):
+        if recv_ == "&mut self":
+            u.ghost_call(name_, method=True)
+            u.stub("acmed/src/endpoint.rs", f"RateLimit::{name_}", "endpoint", fns={name_: ratelimit.new_method_spec()})
+        elif recv_ == "&self":
+            u.stub("acmed/src/endpoint.rs", f"RateLimit::{name_}", "endpoint", fns={name_: FnSpec(sig="    requires self.wf_limits(),\n")})
     # --- acme_proto::structs : error classification (verified) + opaque protocol objects
     u.module("acme_proto", "")
     u.module("acme_proto::structs", "use crate::*;\nuse crate::acme_common::error::Error;")
